@@ -2,6 +2,7 @@
 """C17: text-block formatting preserves the words and respects indentation and width."""
 import json, os, sys
 sys.path.insert(0, os.path.join(os.path.dirname(os.path.abspath(__file__)), "..", "tools"))
+sys.path.insert(0, os.path.dirname(os.path.abspath(__file__)))
 from vlib import *
 
 ACTIONS = ["BeginLine", "ForcedBreak", "Wrap", "FirstWord", "NextWord"]
@@ -52,6 +53,35 @@ def run(tier):
     tr2 = os.path.join(c.wd, "random.ndjson")
     c.drive(exe, ["--random", "--seed", SEED, "--cases", cases, "--texts", texts], tr2, "T", timeout=900)
     c.validate(spec, "TraceTextBlock", "TraceTextBlock.cfg", tr2, "T", timeout=1500)
+    # U: the usage of the argument handler is written through TextBlock behind the key column (src/library/prog_args/detail/
+    #    argument_desc.cpp): random argument sets with keys around the same-line threshold, hidden and deprecated arguments, line
+    #    lengths 60..239, printed once or twice with the display settings changed in between (--print-hidden, --print-deprecated,
+    #    --help-short / --help-long); every line of the last printout obeys the line length unless it holds a single word
+    import argcommon as ac
+    exe2 = ac.driver("asan")
+    g = ac.Gen(SEED * 7 + 17)
+    r_ = g.r
+    blocks = []
+    for _ in range(60 if tier == "quick" else 1500):
+        cfg = ac.usage_decorate(g.cfg(nargs=r_.randint(1, 12), constraints=True, allow_pos=False), r_)
+        cfg.update({"usagehidden": False, "usagedepr": False, "usageshort": r_.random() < 0.5, "usagelong": r_.random() < 0.5, "help": True,
+                    "arghidden": True, "argdepr": True})
+        acts = []
+        # (the help argument can be used once per handler: the first printout goes through the stream operator)
+        variants = [("none", []), ("none", ["-h"]), ("stream", ["--print-hidden", "-h"]), ("stream", ["--print-deprecated", "--help"]),
+                    ("stream", ["--print-hidden", "--print-deprecated", "-h"]), ("none", ["--print-hidden", "--help"]), ("stream", [])]
+        if cfg["usageshort"]:
+            variants.append(("stream", ["--help-short", "-h"]))
+        if cfg["usagelong"]:
+            variants += [("stream", ["--help-long", "--help"]), ("stream", ["--print-hidden", "--help-long", "-h"])]
+        for width in r_.sample([0, 0, 60, 61, 72, 100, 150, 239], 3):
+            for first, words in r_.sample(variants, min(4, len(variants))):
+                acts.append({"n": "UsageLayout", "width": width, "first": first, "argv": [ac.T(w) for w in words]})
+        blocks.append((cfg, acts))
+    script3 = os.path.join(c.wd, "usage_layout.ndjson")
+    nu = ac.write_cases(script3, blocks)
+    c.notes.append("U: %d usage printouts of %d handlers checked for the line length" % (nu, len(blocks)))
+    ac.run_script(c, exe2, script3, "U")
     c.exhaustive = True
     c.assumptions = ["words are maximal runs of characters other than blank and newline (tabs and other white space are "
                      "ordinary word characters and are not generated)",
